@@ -700,7 +700,7 @@ def check_comp(prop, tier, seed):
 
 def builder_conformance(prop, tier, seed, res):
     """StreamBuilder.tla: the component-level assembly API (Stream::new / add_frame / add_metadata_block / STREAMINFO
-    setters / write).  BuilderGen.tla (TLC) writes every call sequence of length <= 3 over 20 calls; the harness replays
+    setters / write).  BuilderGen.tla (TLC) writes every call sequence of length <= 3 over 28 calls; the harness replays
     them on a real Stream; TraceBuilder.tla steps the model's actions through the record.  C08 (count_bits = bits
     written) is judged; the rest is model conformance (MODEL-DIVERGENCE, exit code unaffected)."""
     r = vlib.run_tlc("StreamBuilderMC.tla", "StreamBuilder.cfg", tag="sbmc", workers=4, xmx="4g", timeout=1200)
